@@ -4,7 +4,7 @@
    (Core/Route.v), so "wire i goes to position p" is stated for every labelling. *)
 From Coq Require Import List ZArith Bool.
 Import ListNotations.
-Require Import DV.Common.Base DV.Core.Diagram DV.Core.WF DV.Core.Perm DV.Core.Route DV.Core.PermLemmas.
+Require Import DV.Common.Base DV.Core.Diagram DV.Core.WF DV.Core.Perm DV.Core.Route DV.Core.PermLemmas DV.Core.PermWire.
 Open Scope Z_scope.
 
 (* Diagram.swap(l, r): well-typed, l @ r -> r @ l, adjacent swaps only, and every
@@ -46,8 +46,16 @@ Proof.
 Qed.
 Print Assumptions permutation_refuses.
 
-(* Full statement of the wire map of permutations: carrying the label perm[i] on
-   input wire i, the labels arrive sorted, i.e. input wire i ends at position
-   perm[i].  NOT asserted here: see Core/PermWire.v for its proof status. *)
-Definition permutation_wire_map_stmt : Prop := forall perm dom d,
+(* the wire map of permutations: carrying the label perm[i] on input wire i, the
+   labels arrive sorted, i.e. input wire i ends at output position perm[i] *)
+Theorem permutation_sends_wire_i_to_perm_i : forall perm dom d,
   dpermutation perm dom = Ok d -> route (doffs d) perm = zrange 0 (length perm).
+Proof. exact permutation_wire_map. Qed.
+Print Assumptions permutation_sends_wire_i_to_perm_i.
+
+(* the codomain is the correspondingly permuted domain: cod[perm[i]] = dom[i] *)
+Theorem permutation_codomain_is_permuted_domain : forall perm dom d i p x,
+  dpermutation perm dom = Ok d -> nth_error perm i = Some p -> nth_error dom i = Some x ->
+  nth_error (dcod d) (Z.to_nat p) = Some x.
+Proof. exact permutation_cod. Qed.
+Print Assumptions permutation_codomain_is_permuted_domain.
